@@ -907,6 +907,319 @@ def part_e(ctx):
 
 
 # =============================================================================================
+# F. the algebra of the multi-scale construction on exact linear stand-ins (round 4)
+
+class _MSWorld:
+    """Replaces, inside hcipy.coronagraphy.multi_scale, every Fourier object by an exact linear
+    stand-in with Gaussian-dyadic matrices, so that the real constructor and the real forward run
+    their own algebra (mask recursion, window complement, sum over levels, wavelength handling,
+    Lyot stop) on operators the model can be given exactly."""
+
+    def __init__(self, seed, n):
+        self.rng = np.random.default_rng(seed)
+        self.n = n
+        self.grids = []         # focal grid of level i (by identity)
+        self.F, self.B, self.R = {}, {}, {}
+        self.wavelengths = []   # wavelengths the propagators were called with
+
+    def cm(self, r, c):
+        return self.rng.integers(-2, 3, (r, c)) / 2.0 + 1j * self.rng.integers(-2, 3, (r, c)) / 2.0
+
+    def level_of(self, grid):
+        for i, g in enumerate(self.grids):
+            if g is grid:
+                return i
+        raise MachineryError('stand-in: unknown focal grid')
+
+    def ops(self, i):
+        if i not in self.F:
+            d = self.grids[i].size
+            self.F[i], self.B[i] = self.cm(d, self.n), self.cm(self.n, d)
+        return self.F[i], self.B[i]
+
+    def patch(self):
+        import hcipy.coronagraphy.multi_scale as ms
+        hp = _hp()
+        world = self
+        real_mfg = ms.make_focal_grid
+
+        def make_focal_grid(*a, **k):
+            with warnings.catch_warnings():
+                warnings.simplefilter('ignore')
+                g = real_mfg(*a, **k)
+            world.grids.append(g)
+            return g
+
+        class FFT:
+            def __init__(self, grid):
+                self.src = world.level_of(grid)
+                self.output_grid = grid
+
+            def forward(self, field):
+                return field
+
+        class MFT:
+            def __init__(self, focal_grid, out_grid):
+                self.i, self.j, self.grid = world.level_of(focal_grid), world.level_of(out_grid), focal_grid
+
+            def backward(self, field):
+                key = (self.j, self.i)
+                if key not in world.R:
+                    world.R[key] = world.cm(world.grids[self.i].size, world.grids[self.j].size)
+                return hp.Field(world.R[key] @ np.asarray(field), self.grid)
+
+        class Filter:
+            def __init__(self, input_grid, mask, q=1):
+                self.grid, self.mask = input_grid, mask
+                self.level = world.level_of(mask.grid)
+
+            def forward(self, field):
+                F, B = world.ops(self.level)
+                return hp.Field(B @ (np.asarray(self.mask) * (F @ np.asarray(field))), self.grid)
+
+        class Prop:
+            def __init__(self, input_grid, focal_grid):
+                self.pg, self.fg, self.level = input_grid, focal_grid, world.level_of(focal_grid)
+
+            def forward(self, wf):
+                world.wavelengths.append(float(wf.wavelength))
+                F, _ = world.ops(self.level)
+                return hp.Wavefront(hp.Field(F @ np.asarray(wf.electric_field), self.fg), wf.wavelength)
+
+            def backward(self, wf):
+                world.wavelengths.append(float(wf.wavelength))
+                _, B = world.ops(self.level)
+                return hp.Wavefront(hp.Field(B @ np.asarray(wf.electric_field), self.pg), wf.wavelength)
+
+            __call__ = forward
+
+        saved = {k: getattr(ms, k) for k in ('make_focal_grid', 'FastFourierTransform', 'MatrixFourierTransform', 'FourierFilter', 'FraunhoferPropagator')}
+        ms.make_focal_grid, ms.FastFourierTransform, ms.MatrixFourierTransform = make_focal_grid, FFT, MFT
+        ms.FourierFilter, ms.FraunhoferPropagator = Filter, Prop
+        return ms, saved
+
+
+MSALG_CONFIGS = [(2, 2, 2, 4), (2, 2, 2, 8), (2, 2, 3, 6), (2, 2, 3, 18), (3, 2, 2, 8), (3, 2, 2, 16), (3, 2, 3, 6), (2, 4, 2, 4),
+                 (2, 4, 2, 8), (4, 2, 2, 4), (4, 2, 2, 8), (2, 2, 2, 2), (3, 2, 2, 4)]
+
+
+def gen_msalg_case(rng, k):
+    N, W, s, q = MSALG_CONFIGS[k % len(MSALG_CONFIGS)] if k < len(MSALG_CONFIGS) else MSALG_CONFIGS[int(rng.integers(0, len(MSALG_CONFIGS)))]
+    return {'part': 'F', 'N': N, 'w': W, 's': float(s), 'q': float(q), 'kind': str(rng.choice(['random', 'random', 'vortex', 'fqpm'])),
+            'charge': int(rng.choice([2, 4, 6])), 'stop': bool(rng.random() < 0.5), 'seed': int(rng.integers(0, 2 ** 31)),
+            'wavelengths': [1.0, float(rng.choice([0.5, 2.0, 1.6e-6]))]}
+
+
+def run_msalg_case(case):
+    """The real constructor + forward on stand-ins; brute-force statement of the design; the model request."""
+    hp = _hp()
+    N, W, s, q = case['N'], case['w'], case['s'], case['q']
+    pg = hp.make_pupil_grid(N)
+    n = pg.size
+    world = _MSWorld(case['seed'], n)
+    rng = np.random.default_rng(case['seed'] + 1)
+    raws = []
+
+    def raw_mask(grid):
+        if case['kind'] == 'vortex':
+            v = np.exp(1j * case['charge'] * grid.as_('polar').theta) * (1 - (grid.as_('polar').r < 0.5e-9))
+        elif case['kind'] == 'fqpm':
+            v = (np.sign(grid.x) * np.sign(grid.y)).astype(complex)
+        else:
+            v = rng.integers(-4, 5, grid.size) / 4.0 + 1j * rng.integers(-4, 5, grid.size) / 4.0
+        return np.asarray(v, dtype=complex)
+
+    made = []
+
+    def complex_mask(grid):
+        v = raw_mask(grid)
+        made.append(v.copy())
+        return hp.Field(v.copy(), grid)
+    stop = (rng.integers(-4, 5, n) / 4.0 + 1j * rng.integers(-4, 5, n) / 4.0) if case['stop'] else None
+    E = rng.integers(-8, 9, n) / 4.0 + 1j * rng.integers(-8, 9, n) / 4.0
+    bad = []
+    ms, saved = world.patch()
+    try:
+        stop_f = None if stop is None else hp.Field(stop.copy(), pg)
+        if case['kind'] == 'vortex':
+            c = hp.VortexCoronagraph(pg, case['charge'], stop_f, q, s, W)
+        elif case['kind'] == 'fqpm':
+            c = hp.FQPMCoronagraph(pg, stop_f, q, s, W)
+        else:
+            c = hp.MultiScaleCoronagraph(pg, complex_mask, stop_f, q, s, W)
+        outs = []
+        for wl in case['wavelengths']:
+            wf = hp.Wavefront(hp.Field(E.copy(), pg), wl)
+            o = c.forward(wf)
+            outs.append(np.asarray(o.electric_field).copy())
+            if o.wavelength != wl or wf.wavelength != wl:
+                bad.append(('multiscale wavelength-bookkeeping', 'forward at wavelength %g returned wavelength %r and left the input at %r' % (wl, o.wavelength, wf.wavelength)))
+            if not np.array_equal(np.asarray(wf.electric_field), E):
+                bad.append(('multiscale input-modified', 'forward changed its input'))
+        masks = [np.asarray(m).copy() for m in c.focal_masks]
+    except Exception as e:  # noqa
+        for k2, v in saved.items():
+            setattr(ms, k2, v)
+        return None, [('multiscale stand-in raises', '%s on stand-ins raised %s: %s' % (case['kind'], type(e).__name__, str(e)[:100]))]
+    finally:
+        for k2, v in saved.items():
+            setattr(ms, k2, v)
+    L = len(masks)
+    grids = world.grids[:L]
+    if any(w != 1.0 for w in world.wavelengths):
+        bad.append(('multiscale chromatic-propagator-call', 'a propagator was called at wavelength %r (must be 1 after rescaling)' % sorted(set(world.wavelengths))[:3]))
+    if np.abs(outs[0] - outs[1]).max() > 0:
+        bad.append(('multiscale chromatic', 'the output field depends on the wavelength (max difference %.3g)' % np.abs(outs[0] - outs[1]).max()))
+    # brute-force statement of the design on the same operators
+    ds = [g.size for g in grids]
+    wins, raws, Ms = [], [], []
+    for i, g in enumerate(grids):
+        raws.append(raw_mask(g) if case['kind'] != 'random' else None)
+    if case['kind'] == 'random':
+        raws = made[:L]
+    for i, g in enumerate(grids):
+        dd = int(g.dims[0])
+        if i != L - 1:
+            b = (dd - W) // 2
+            wins.append(expected_window(dd, dd, W, b, dd - W - b).ravel())
+        else:
+            wins.append(np.zeros(g.size))
+        M = raws[i] * (1 - wins[i]) if i != L - 1 else raws[i].copy()
+        for j in range(i):
+            M = M - world.R[(j, i)] @ Ms[j]
+        Ms.append(M)
+    want = sum(world.ops(i)[1] @ (Ms[i] * (world.ops(i)[0] @ E)) for i in range(L))
+    if stop is not None:
+        want = want * stop
+    scale = max(1.0, float(np.abs(want).max()))
+    for i in range(L):
+        if masks[i].shape != Ms[i].shape or np.abs(masks[i] - Ms[i]).max() > TOL * max(1.0, np.abs(Ms[i]).max()):
+            bad.append(('multiscale mask-recursion', 'level %d: stored mask differs from raw*(1-window) - sum of resampled earlier masks' % i))
+            break
+    if np.abs(outs[0] - want).max() > TOL * scale:
+        bad.append(('multiscale forward-sum', 'forward differs from stop * sum_i B_i(M_i * F_i E) by %.3g' % np.abs(outs[0] - want).max()))
+    # the model request: all levels embedded as blocks of one index set
+    D = sum(ds)
+    off = np.concatenate([[0], np.cumsum(ds)])
+
+    def emb_vec(v, i):
+        o = np.zeros(D, dtype=complex)
+        o[off[i]:off[i + 1]] = v
+        return o
+
+    def cl(a):
+        a = np.asarray(a, dtype=complex)
+        return rat_list(a.real) + ' ' + rat_list(a.imag)
+
+    def cmx(M):
+        return rat_lists(M.real) + ' ' + rat_lists(M.imag)
+    toks = ['C09 msalg %d %d' % (n, D), '- -' if stop is None else cl(stop), cl(E), str(L)]
+    for i in range(L):
+        Fi, Bi = world.ops(i)
+        Fe = np.zeros((D, n), dtype=complex)
+        Fe[off[i]:off[i + 1]] = Fi
+        Be = np.zeros((n, D), dtype=complex)
+        Be[:, off[i]:off[i + 1]] = Bi
+        toks += [cl(emb_vec(raws[i], i)), cl(emb_vec(wins[i], i)), cmx(Fe), cmx(Be), str(i)]
+        for j in range(i):
+            Re = np.zeros((D, D), dtype=complex)
+            Re[off[i]:off[i + 1], off[j]:off[j + 1]] = world.R[(j, i)]
+            toks.append(cmx(Re))
+    return {'line': ' '.join(toks), 'out': outs[0], 'masks': masks, 'off': off, 'scale': scale, 'L': L, 'D': D}, bad
+
+
+def gen_mstele(rng):
+    """Nested supports with windows inside the next support (sometimes deliberately violated)."""
+    d, n, L = int(rng.integers(3, 11)), int(rng.integers(1, 4)), int(rng.integers(1, 5))
+    lo, hi = 0, d
+    sps = []
+    supports = []
+    for i in range(L):
+        supports.append((lo, hi))
+        if hi - lo > 1:
+            lo2 = lo + int(rng.integers(0, 2))
+            hi2 = hi - int(rng.integers(0, 2))
+            if hi2 <= lo2:
+                lo2, hi2 = lo, hi
+            lo, hi = lo2, hi2
+    broken = bool(rng.random() < 0.2 and L > 1)
+    for i in range(L):
+        S = np.zeros(d)
+        S[supports[i][0]:supports[i][1]] = 1
+        w = np.zeros(d)
+        if i + 1 < L:
+            a, b = supports[i + 1]
+            w[a:b] = rng.integers(0, 9, b - a) / 8.0
+            if broken and i == 0:
+                outside = [p for p in range(d) if not (a <= p < b)]
+                if outside:
+                    w[outside[0]] = 0.5
+                else:
+                    broken = False
+        sps.append((S, w))
+    m = rng.integers(-8, 9, d) / 4.0
+    F = rng.integers(-4, 5, (d, n)) / 2.0
+    B = rng.integers(-4, 5, (n, d)) / 2.0
+    E = rng.integers(-8, 9, n) / 4.0
+    line = 'C09 mstele %d %d %s %s %s %d %s %s' % (n, d, rat_list(m), rat_lists(F), rat_lists(B), L,
+                                                    ' '.join('%s %s' % (rat_list(S), rat_list(w)) for S, w in sps), rat_list(E))
+    return line, B @ (m * (F @ E)), broken
+
+
+def part_f(ctx):
+    cases = [gen_msalg_case(ctx.rng, k) for k in range(ctx.scale(16, 60))]
+    lines, plan = [], []
+    for case in cases:
+        obs, bad = run_msalg_case(case)
+        for key, what in bad:
+            ctx.violation(key, what, case)
+        ctx.count('F:kind:' + case['kind'])
+        ctx.count('F:stop' if case['stop'] else 'F:no-stop')
+        if obs is not None:
+            ctx.count('F:levels:%d' % obs['L'])
+            ctx.case({k: case[k] for k in ('N', 'w', 's', 'q', 'kind', 'stop')}, ('F', case['N'], case['w'], case['s'], case['q'], case['kind'], case['stop']) if obs['L'] > 1 else None)
+            plan.append((case, obs, len(lines)))
+            lines.append(obs['line'])
+    tele = [gen_mstele(ctx.rng) for _ in range(ctx.scale(60, 400))]
+    out = ctx.model(lines + [t[0] for t in tele])
+    for case, obs, k in plan:
+        toks = out[k].split()
+        short = {k2: case[k2] for k2 in ('N', 'w', 's', 'q', 'kind', 'stop', 'seed')}
+        if toks[0] != 'ok' or len(toks) != 3 + 2 * obs['L']:
+            raise MachineryError('model refused msalg: %s' % out[k][:80])
+
+        def cv(a, b):
+            return np.array([float(v) for v in parse_rat_list(a)]) + 1j * np.array([float(v) for v in parse_rat_list(b)])
+        ctx.traces_validated += 1
+        ref = cv(toks[1], toks[2])
+        if np.abs(ref - obs['out']).max() > TOL * obs['scale']:
+            ctx.disagree('C09 msForward', {'case': short, 'max_abs_diff': float(np.abs(ref - obs['out']).max())})
+            continue
+        for i in range(obs['L']):
+            Mi = cv(toks[3 + 2 * i], toks[4 + 2 * i])[obs['off'][i]:obs['off'][i + 1]]
+            ctx.traces_validated += 1
+            if np.abs(Mi - obs['masks'][i]).max() > TOL * max(1.0, float(np.abs(Mi).max())):
+                ctx.disagree('C09 msMasks', {'case': short, 'level': i, 'max_abs_diff': float(np.abs(Mi - obs['masks'][i]).max())})
+                break
+    for (line, want, broken), resp in zip(tele, out[len(lines):]):
+        toks = resp.split()
+        if toks[0] != 'ok':
+            raise MachineryError('model refused mstele: %s' % resp[:80])
+        m = dict(t.split('=') for t in toks[1:3])
+        ctx.traces_validated += 1
+        ctx.count('F:tele:nested=%s' % m['nested'])
+        lhs = np.array([float(v) for v in parse_rat_list(toks[3])])
+        if m['nested'] == '1':
+            # the theorem's conclusion, evaluated by the model and recomputed here
+            if m['equal'] != '1' or np.abs(lhs - want).max() > TOL * max(1.0, np.abs(want).max()):
+                ctx.disagree('C09 telescoping', {'line': line[:200], 'model': resp[:200]})
+        elif not broken:
+            ctx.disagree('C09 telescoping', {'what': 'generator made nested supports but the model says nestedOK = false', 'line': line[:200]})
+        else:
+            ctx.count('F:tele:broken-unequal' if m['equal'] == '0' else 'F:tele:broken-equal')
+
+
+# =============================================================================================
 
 def run(ctx):
     ctx.rule = ('A: every order on a range, mode and coefficient counts against the model and against h(h+1)/2. '
@@ -930,6 +1243,7 @@ def run(ctx):
     part_a(ctx)
     part_b(ctx)
     part_c(ctx)
+    part_f(ctx)
     geo = part_e(ctx)
     part_d(ctx, geo)
 
@@ -948,6 +1262,8 @@ def replay(ctx, case):
         bad = levels_oracle(case, observe_levels(case))
     elif part == 'E':
         _, bad = run_leak_case(case)
+    elif part == 'F':
+        _, bad = run_msalg_case(case)
     else:
         raise MachineryError('unknown replay case')
     for key, what in bad:
